@@ -257,6 +257,7 @@ void *__wrap_realloc(void *o, size_t n) {
     if (!hx_in_lib) { if (o) track_del(o); return __real_realloc(o, n); }
     if (hx_in_lib == 1 && fault_now()) return NULL;
     if (o) track_del(o);
+    if (hx_in_lib == 1) hx_work += n / 16 + 1;          /* a realloc may move the whole block */
     void *p = __real_realloc(o, n);
     if (p) track_add(p, n);
     return p;
@@ -276,6 +277,22 @@ int __wrap_inflateInit2_(z_streamp strm, int wb, const char *ver, int sz) {
     if (hx_in_lib == 1 && fault_now()) return Z_MEM_ERROR;
     return __real_inflateInit2_(strm, wb, ver, sz);
 }
+
+/* ------------------------------------------------------------------ work meter (cost flavour) ----------- */
+volatile uint64_t hx_work = 0;
+#ifdef HX_FLAVOUR_cost
+/* libhtp is compiled with -fsanitize-coverage=trace-pc-guard: one callback per basic block / edge */
+void __sanitizer_cov_trace_pc_guard_init(uint32_t *start, uint32_t *stop) { for (uint32_t *g = start; g < stop; g++) *g = 1; }
+void __sanitizer_cov_trace_pc_guard(uint32_t *guard) { (void) guard; if (hx_in_lib == 1) hx_work++; }
+/* bulk primitives called from libhtp (built with -fno-builtin): bytes/16 */
+void *__real_memcpy(void *, const void *, size_t); void *__real_memmove(void *, const void *, size_t);
+void *__real_memchr(const void *, int, size_t); int __real_memcmp(const void *, const void *, size_t); void *__real_memset(void *, int, size_t);
+void *__wrap_memcpy(void *d, const void *s, size_t n) { if (hx_in_lib == 1) hx_work += n / 16 + 1; return __real_memcpy(d, s, n); }
+void *__wrap_memmove(void *d, const void *s, size_t n) { if (hx_in_lib == 1) hx_work += n / 16 + 1; return __real_memmove(d, s, n); }
+void *__wrap_memset(void *d, int c, size_t n) { if (hx_in_lib == 1) hx_work += n / 16 + 1; return __real_memset(d, c, n); }
+void *__wrap_memchr(const void *s, int c, size_t n) { void *r = __real_memchr(s, c, n); if (hx_in_lib == 1) hx_work += (r ? (size_t) ((const char *) r - (const char *) s) : n) / 16 + 1; return r; }
+int __wrap_memcmp(const void *a, const void *b, size_t n) { if (hx_in_lib == 1) hx_work += n / 16 + 1; return __real_memcmp(a, b, n); }
+#endif
 
 /* ------------------------------------------------------------------ clock seam ------------- */
 static long vclk_sec = 1000000000L, vclk_usec = 0;
